@@ -41,6 +41,9 @@ pub struct FilterObs {
     pub uses: Vec<UsesObs>,
     #[serde(default, skip_serializing_if = "String::is_empty")]
     pub err: String,
+    /// what the definition-context function (ctxfn) saw in each phase: [phase, accessor, entries or -1]
+    #[serde(default)]
+    pub ctxobs: Vec<(String, String, i64)>,
 }
 
 pub struct World {
@@ -93,6 +96,7 @@ pub fn observe_filter(
     let scheme = &w.schemes[sch - 1];
     let spec = &w.specs[sch - 1];
     let parser = w.parser(sch, max);
+    CTXOBS.with(|c| c.borrow_mut().clear());
     let parsed = catch_unwind(AssertUnwindSafe(|| parser.parse(src).map_err(|e| e.to_string())));
     let ast = match parsed {
         Err(_) => {
@@ -103,6 +107,7 @@ pub fn observe_filter(
                 runs: vec![],
                 uses: vec![],
                 err: String::new(),
+                ctxobs: vec![],
             }
         }
         Ok(Err(e)) => {
@@ -113,6 +118,7 @@ pub fn observe_filter(
                 runs: vec![],
                 uses: vec![],
                 err: e,
+                ctxobs: vec![],
             }
         }
         Ok(Ok(a)) => a,
@@ -178,6 +184,7 @@ pub fn observe_filter(
             }
         }
     }
+    let ctxobs = CTXOBS.with(|c| c.borrow().iter().map(|(p, a, n)| (p.clone(), a.clone(), n.map(|x| x as i64).unwrap_or(-1))).collect());
     FilterObs {
         ok: true,
         out: "ok".into(),
@@ -185,6 +192,7 @@ pub fn observe_filter(
         runs,
         uses: u,
         err: String::new(),
+        ctxobs,
     }
 }
 
